@@ -95,13 +95,17 @@ fn sim_case(ctx: &Ctx, out: &mut Outcome, rng: &mut Rng, idx: u64) {
     let sched_rng = rng.fork(3);
     // for two queries enumerate both release orders across consecutive case indices, else seeded
     let forced_first: Option<usize> = if nq == 2 { Some((idx % 2) as usize) } else { None };
+    // a third of the cases: one read of the query node fails during the concurrent phase. The failed query may
+    // answer with an error - what no query may do is answer from another query's chunk set (an error path that
+    // resolves the table name again would).
+    let fault_at: Option<u64> = if rng.chance(1, 3) { Some(rng.below(30)) } else { None };
     let res = sim::run_sim(async move {
-        let ctl = Ctl::new();
-        ctl.set_hooks(true);
         let store = Arc::new(InMemory::new());
+        let ctl = Ctl::with_backing(store.clone());
+        ctl.set_hooks(true);
         let meta = Arc::new(LocalMetadataClient::new());
         let (all, base) = dataset(&mut drng, idx as i64 * 10_000, store.clone(), meta.clone()).await?;
-        let mut node = QueryNode::new(crate::checks::c09::query_config(), store.clone(), meta.clone() as Arc<dyn MetadataClient>, storage_config()).await.map_err(|e| e.to_string())?;
+        let mut node = QueryNode::new(crate::checks::c09::query_config(), ctl.store("node"), meta.clone() as Arc<dyn MetadataClient>, storage_config()).await.map_err(|e| e.to_string())?;
         let (btx, _) = tokio::sync::broadcast::channel::<RecordBatch>(4);
         node.connect_broadcast(btx.subscribe());
         let node = Arc::new(node);
@@ -117,6 +121,10 @@ fn sim_case(ctx: &Ctx, out: &mut Outcome, rng: &mut Rng, idx: u64) {
         }
         // concurrent run, gated at the hook only
         ctl.set_gate_filter(Some(Arc::new(|p: &crate::sim::ParkedInfo| p.op == "HOOK" && p.path.starts_with("query.after_"))));
+        ctl.reset_counters();
+        if let Some(k) = fault_at {
+            ctl.set_faults(vec![sim::Fault { actor: Some("node".into()), index: k, mode: sim::FaultMode::Before }]);
+        }
         ctl.set_gating(true);
         let mut hs = vec![];
         for (i, q) in queries.iter().cloned().enumerate() {
@@ -167,14 +175,16 @@ fn sim_case(ctx: &Ctx, out: &mut Outcome, rng: &mut Rng, idx: u64) {
             ctl.release(parked[pick].req, sim::Release::Proceed);
         }
         ctl.set_gating(false);
+        ctl.set_faults(vec![]);
+        let fault_hit = ctl.events().iter().any(|e| e.result.starts_with("injected"));
         let mut concurrent = vec![];
         for h in hs {
             concurrent.push(h.await.map_err(|e| e.to_string())?);
         }
-        Ok::<_, String>((queries, alone, reference, concurrent, order, with_stream))
+        Ok::<_, String>((queries, alone, reference, concurrent, order, with_stream, fault_hit))
     });
     out.eval();
-    let (queries, alone, reference, concurrent, order, with_stream) = match res {
+    let (queries, alone, reference, concurrent, order, with_stream, fault_hit) = match res {
         Ok(x) => x,
         Err(e) => {
             out.inconclusive(&format!("case {idx}: {e}"));
@@ -182,6 +192,9 @@ fn sim_case(ctx: &Ctx, out: &mut Outcome, rng: &mut Rng, idx: u64) {
         }
     };
     out.count("sim.schedules", 1);
+    if fault_hit {
+        out.count("sim.schedules_with_a_failed_read", 1);
+    }
     out.count("sim.queries", queries.len() as u64);
     let distinct_windows: std::collections::BTreeSet<String> = queries.iter().map(|q| q.split("timestamp").nth(1).unwrap_or("").chars().take(60).collect()).collect();
     if distinct_windows.len() >= 2 {
@@ -199,6 +212,9 @@ fn sim_case(ctx: &Ctx, out: &mut Outcome, rng: &mut Rng, idx: u64) {
         let a = alone[i].as_ref().unwrap();
         match &concurrent[i] {
             Ok(c) if c == a => {}
+            Err(_) if fault_hit => {
+                out.count("sim.queries_failed_by_the_injected_read_error", 1);
+            }
             other => {
                 let pos = order.iter().position(|o| *o == format!("q{}", i));
                 let sig = if with_stream && i == 0 { "C10/streaming-historical-phase-evaluated-on-other-querys-chunks" } else { "C10/answer-differs-under-concurrency" };
